@@ -50,7 +50,9 @@ def cases(draw):
     else:
         disps = [d0 + k / subpix for k in range(nd)]
     ty, tx = draw(st.integers(1, 6)), draw(st.integers(1, 6))
-    cell = st.one_of(st.integers(0, 3), st.integers(0, 3), st.just("NaN"), st.integers(-50, 50))
+    # "best-inf": an infinite cost on the winning side (-inf for a cost, +inf for a similarity) - a computable cost like another
+    cell = st.one_of(st.integers(0, 3), st.integers(0, 3), st.just("NaN"), st.integers(-50, 50), st.integers(0, 3), st.integers(-50, 50),
+                     st.just("best-inf"))
     tile = draw(st.lists(st.lists(st.lists(cell, min_size=nd, max_size=nd), min_size=tx, max_size=tx),
                          min_size=ty, max_size=ty))
     if big:
@@ -88,12 +90,14 @@ def materialise(p):
             for c in range(nx):
                 cv[r, c, rs.randint(0, nd)] = -5.0 if p["type"] == "min" else 99.0
         return cv, np.zeros((ny, nx), dtype=np.uint16), {}
-    tile = build.arr(p["tile"])
+    best_inf = "-inf" if p["type"] == "min" else "inf"
+    sub_ = lambda x: [sub_(y) for y in x] if isinstance(x, list) else (best_inf if x == "best-inf" else x)  # noqa: E731
+    tile = build.arr(sub_(p["tile"]))
     ty, tx, nd = tile.shape
     ny, nx = p["ny"], p["nx"]
     cv = np.tile(tile, (math.ceil(ny / ty), math.ceil(nx / tx), 1))[:ny, :nx, :].copy()
     for r, c, vals in p["patches"]:
-        cv[r, c, :] = build.arr(vals)
+        cv[r, c, :] = build.arr(sub_(vals))
     mv = np.array(p["mask_vals"], dtype=np.uint16)
     idx = (np.arange(ny)[:, None] * 7 + np.arange(nx)[None, :] * 3) % len(mv)
     mask = mv[idx]
